@@ -159,7 +159,9 @@ pub fn gen(r: &mut Rng) -> Value {
                 let al: Vec<String> = (0..k).map(|_| r.pick(&pool).to_string()).collect();
                 ops.push(json!({"op": "set", "name": name, "aliases": al}));
             }
-            5 | 6 => ops.push(json!({"op": "remove", "x": r.pick(&pool)})),
+            5 => ops.push(json!({"op": "remove", "x": r.pick(&pool)})),
+            // the same removal asked for by a script (`remove_command x`): one alias step, exactly like Commands::remove
+            6 => ops.push(json!({"op": "remove_cmd", "x": r.pick(&pool)})),
             7 => ops.push(json!({"op": "names"})),
             _ => ops.push(json!({"op": "get", "x": r.pick(&pool)})),
         }
@@ -203,6 +205,32 @@ pub fn run(input: &Value) -> Option<Value> {
                 let got = real.remove(&x);
                 if got != existed {
                     return Some(json!({"step": i, "what": "remove result differs", "model": existed}));
+                }
+            }
+            "remove_cmd" => {
+                let x = op["x"].as_str()?.to_string();
+                let n = aliases.get(&x).cloned().unwrap_or(x.clone());
+                let existed = names.remove(&n).is_some();
+                if existed {
+                    aliases.retain(|_, v| *v != n);
+                }
+                // run `remove_command x` on a context that holds this registry plus the library's remove command
+                let mut lib = Commands::new();
+                duckscriptsdk::load(&mut lib).ok()?;
+                let rc = lib.get("remove_command")?.clone_and_box();
+                let rc_name = rc.name();
+                let mut context = duckscript::types::runtime::Context::new();
+                context.commands = std::mem::replace(&mut real, Commands::new());
+                context.commands.set(rc).ok()?;
+                let context = match duckscript::runner::run_script(&format!("r = remove_command {}", x), context, None) {
+                    Ok(c) => c,
+                    Err(e) => return Some(json!({"step": i, "what": "remove_command failed", "error": e.to_string()})),
+                };
+                let got = context.variables.get("r").cloned();
+                real = context.commands;
+                real.remove(&rc_name);
+                if got != Some(existed.to_string()) {
+                    return Some(json!({"step": i, "what": "remove_command result differs", "model": existed, "real": got}));
                 }
             }
             "names" => {
